@@ -138,6 +138,25 @@ func NewGen(r *Rng, k Knobs) *Gen {
 		g.C.Consts[name] = v
 		g.cb[ty] = append(g.cb[ty], name)
 	}
+	// name resolution order: a constant wins over a variable of the same name.
+	// Occasionally register a variable under a constant's name (bound to
+	// something else); programs only ever mean the constant by it.
+	if len(g.C.Consts) > 0 && k.UndefMode == 0 && r.P(0.15) {
+		cname := sortedKeys(g.C.Consts)[r.Intn(len(g.C.Consts))]
+		ty := []Ty{TBool, TInt, TStr}[r.Intn(3)]
+		key := int16(300 + r.Intn(50))
+		for used := true; used; {
+			used = false
+			for _, v := range g.C.Vars {
+				if v.Key == key {
+					used = true
+					key++
+				}
+			}
+		}
+		g.C.Vars = append(g.C.Vars, VarSpec{Name: cname, Ty: ty, Key: key, Reg: true})
+		// deliberately NOT added to g.by: the generator never emits Var(cname)
+	}
 	// user operators
 	on := r.Perm(len(opNames))
 	for i := 0; i < k.NOps; i++ {
